@@ -1,0 +1,33 @@
+//go:build verif
+
+// Contracts for the deductive checker in /verif (comment-only; compiled only with -tags verif).
+package misc
+
+//@ func (*Buffer).growSize
+//@   props C17
+//@   requires b.grow >= 1 && b.grow <= 1073741824
+//@   modifies b.grow
+//@   ensures result >= 2 && result <= 1073741824 && b.grow == result && result >= old(b.grow) && allocated == old(allocated)
+
+//@ func (*Buffer).maybeGrow
+//@   props C17
+//@   requires b.grow >= 1 && b.grow <= 1073741824 && n <= 1099511627776
+//@   panics-when n > cap(b.b) + 1073741824
+//@   modifies b.b, b.grow
+//@   ensures n <= len(old(b.b)) ==> b.b == old(b.b)
+//@   ensures n > len(old(b.b)) ==> len(b.b) == n
+//@   ensures len(b.b) >= n || n < 0
+//@   ensures b.grow >= 1 && b.grow <= 1073741824
+//@   ensures reg(b.b) == reg(old(b.b)) || fresh(b.b)
+//@   ensures [C17] allocated <= old(allocated) + max(n, 0) + 2147483648
+//@   loop 1 invariant b.grow >= 1 && b.grow <= 1073741824 && newlen >= c && c == cap(b.b) && b.b == old(b.b) && allocated == old(allocated)
+//@   loop 1 invariant newlen <= n + 1073741824 || newlen == c
+//@   loop 1 decreases n - newlen
+
+//@ func (*Buffer).Buffer
+//@   props C17 C18
+//@   requires b.grow >= 1 && b.grow <= 1073741824 && n >= 0 && n <= 1099511627776
+//@   panics-when n > cap(b.b) + 1073741824
+//@   modifies b.b, b.grow, b.off
+//@   ensures len(result) == n && b.grow >= 1 && b.grow <= 1073741824
+//@   ensures reg(result) == reg(old(b.b)) || fresh(result)
